@@ -40,6 +40,10 @@ inductive LEv where
   | invalidate
   /-- free callback of a response object -/
   | freeCb (rid : Nat)
+  /-- an interim (102 Processing) reply has been sent completely: the handler is asked again -/
+  | interimSent
+  /-- upgrade handler callback: the socket is handed over to the application -/
+  | upgrade
   deriving DecidableEq, Repr
 
 /-- what the automaton remembers about the request in progress -/
@@ -87,6 +91,8 @@ def step : PSt → LEv → PSt
   | .req r, .handler site off len taken ctxIn ctxOut ret => handlerStep r site off len taken ctxIn ctxOut ret
   | .req r, .queued => if r.replied then .bad else .req { r with replied := true }
   | .req r, .completed _ ctx => if ctx = r.ctx then .idle else .bad
+  | .req r, .interimSent => if r.replied then .req { r with replied := false, site := .first } else .bad
+  | .req r, .upgrade => if r.replied then .req r else .bad
   | .idle, .queued => .idle          -- MHD's own error reply to a request the application never saw
   | .idle, .invalidate => .idle
   | .idle, .freeCb _ => .idle
